@@ -97,11 +97,15 @@ func VerifC18_serve_table_size() {
 	recs, _ := svParse(s.c.written())
 	want := map[uint32]string{1: "/one", 3: "/two", 5: "/three"}
 	seen := 0
+	afterChange := false
 	for _, f := range recs {
 		if f.typ != FrameHeaders {
 			continue
 		}
-		if f.id == 3 {
+		if f.id != 1 && !afterChange {
+			// the first header block the server writes after the change - whichever of the two later
+			// responses that is (their handlers run concurrently)
+			afterChange = true
 			dec.SetAllowedMaxDynamicTableSize(final)
 			ups := svSizeUpdates(f.payload)
 			// server's encoder limit is 4096: what it may use is min(4096, client's value)
